@@ -21,7 +21,7 @@ NA = {
  "C15": "pure function of a directory's contents; the statement has no fault, crash or history clause",
  "C17": "pure function of one fitted curve",
 }
-PENDING = {"C19": "4.8", "C20": "4.9"}
+PENDING = {"C20": "4.9"}
 
 CHECKS = {
  "C03": dict(engine="curve-sim", cat="exploration", ref="DESIGN.md 4.1",
@@ -45,6 +45,9 @@ CHECKS = {
  "C18": dict(engine="registry-sim", cat="exploration", ref="DESIGN.md 4.7",
    text="seeded histories of register / deregister / load_model_from_file calls on the process-wide registry with real model files in a scratch directory: valid models in three forms, every single-fault mutant of a valid module (all of them are met in every batch), missing / syntactically broken / raising / import-failing files, directories already on sys.path, same file name in another directory, edited-and-reloaded files, either bytecode-flag preset; after every op registry == reference dict with model identity, documented error classes, sys.path (order included) and sys.dont_write_bytecode unchanged, loaded model == the code in that file (outputs on seeded arrays, fit bit-equal to the shipped twin), ancillary seeding incl. NaN.",
    note="the registry and the interpreter's import state are process-global: each run snapshots and restores them; error-class expectations are the harness's reading of the statement (see assumptions in the evidence)"),
+ "C19": dict(engine="profile-sim", cat="exploration", ref="DESIGN.md 4.8",
+   text="seeded histories over the profile file as durable state: set / get / restart (all Profile objects dropped, new one on the same file) / get_fit_params / legacy key=value file written from the reference / interactive setup driven by a scripted input() (each prompt answered or skipped, invalid-then-valid answers for the looping prompts) / batch fit on a scratch data folder; reference dict with the documented defaults; every read through a new Profile equals the reference, legacy == JSON values, fit parameters == defaults overridden by exactly the stored entries, stored values == answers (with units), batch fit accepts the profile and statistics.tsv / plots.tif have one row / page per curve with independently recomputed modulus and rating.",
+   note="PROFILE_PATH is bound at import: each process imports nanite.cli under a private XDG_CONFIG_HOME; answers stay inside each prompt's documented domain (numbers strictly inside parameter bounds); the external iterative model sneddon_spher is left out of the batch fits for cost"),
 }
 
 
